@@ -146,7 +146,7 @@ class Table(SubCheck):
                     case["par"]))
 
 
-SUPPLY = ["attr-num", "attr-unit", "attr-percent", "caller", "default"]
+SUPPLY = ["attr-num", "attr-unit", "attr-percent", "caller", "caller-width-only", "caller-height-only", "default"]
 WS_PARS = ["xMaxYMin  slice", " xMinYMax meet", "xMidYMid slice ", "xMinYMid\tslice", "xMaxYMax   meet"]
 
 
@@ -211,6 +211,13 @@ class Documents(SubCheck):
         elif sup == "caller":
             kw["width"] = float(c["ew"])
             kw["height"] = float(c["eh"])
+        elif sup == "caller-width-only":
+            # only one of the two sizes is supplied by the caller: the other one defaults to the viewBox's
+            kw["width"] = float(c["ew"])
+            c["eh"] = c["vbh"]
+        elif sup == "caller-height-only":
+            kw["height"] = float(c["eh"])
+            c["ew"] = c["vbw"]
         else:  # default: element size = viewBox size
             c["ew"], c["eh"] = c["vbw"], c["vbh"]
         rx, ry, rw, rh = F(c["vbx"]) + F(c["vbw"]) / 4, F(c["vby"]) + F(c["vbh"]) / 8, F(c["vbw"]) / 2, F(c["vbh"]) / 4
